@@ -149,7 +149,7 @@ func cmdCheck(argv []string) int {
 			fc := ld.Contracts.Funcs[n]
 			rep := &funcReport{Name: pat + ":" + n, HasContract: true, Clauses: len(fc.Requires) + len(fc.Ensures), Kinds: map[string]int{}}
 			reports = append(reports, rep)
-			if fc.Obj == nil {
+			if fc.Obj == nil && !fc.IsInit {
 				continue
 			}
 			if fc.Trusted {
@@ -157,7 +157,12 @@ func cmdCheck(argv []string) int {
 				continue
 			}
 			nContracted++
-			fn := ld.Prog.FuncValue(fc.Obj)
+			var fn *ssa.Function
+			if fc.IsInit {
+				fn = ld.SSA.Func("init")
+			} else {
+				fn = ld.Prog.FuncValue(fc.Obj)
+			}
 			if fn == nil {
 				rep.Error = "no SSA function"
 				loadErrors = append(loadErrors, "no SSA function for "+n)
@@ -362,6 +367,11 @@ func cmdCheck(argv []string) int {
 	os.WriteFile(filepath.Join(*verifDir, "evidence", prop+".json"), b, 0o644)
 	fmt.Printf("govc: property %s: %d obligations, %d discharged (%d by simplifier), %d failed, %d known findings, %.1fs\n", prop, nObl, nDis, nTriv, len(failed)-len(knownHit), len(knownHit), time.Since(t0).Seconds())
 	if *verbose {
+		for _, o := range allObls {
+			if o.Time > 1.0 {
+				fmt.Printf("  slow: %-60s %s %.1fs %s\n", o.Name, o.Solver, o.Time, o.Status)
+			}
+		}
 		for _, r := range reports {
 			fmt.Printf("  %-50s obl=%d dis=%d %s\n", r.Name, r.Obligations, r.Discharged, r.Error)
 		}
